@@ -18,22 +18,41 @@ type atomicMap struct {
 }
 
 // AtomicMap mirrors goutil.AtomicMap.
+//
+//go:norace
 func AtomicMap() goutil.Map { return &atomicMap{in: goutil.AtomicMap()} }
 
+//go:norace
 func (m *atomicMap) pt() { vsched.Point(vsched.KMap, m, nil) }
+
+//go:norace
 func (m *atomicMap) rd() { vsched.Point(vsched.KMapRead, m, nil) }
 
+//go:norace
 func (m *atomicMap) String() string { return "AtomicMap" }
 
+//go:norace
 func (m *atomicMap) Load(key interface{}) (interface{}, bool) { m.rd(); return m.in.Load(key) }
-func (m *atomicMap) Store(key, value interface{})             { m.pt(); m.in.Store(key, value) }
+
+//go:norace
+func (m *atomicMap) Store(key, value interface{}) { m.pt(); m.in.Store(key, value) }
+
+//go:norace
 func (m *atomicMap) LoadOrStore(key, value interface{}) (interface{}, bool) {
 	m.pt()
 	return m.in.LoadOrStore(key, value)
 }
+
+//go:norace
 func (m *atomicMap) Delete(key interface{}) { m.pt(); m.in.Delete(key) }
-func (m *atomicMap) Clear()                 { m.pt(); m.in.Clear() }
-func (m *atomicMap) Len() int               { m.rd(); return m.in.Len() }
+
+//go:norace
+func (m *atomicMap) Clear() { m.pt(); m.in.Clear() }
+
+//go:norace
+func (m *atomicMap) Len() int { m.rd(); return m.in.Len() }
+
+//go:norace
 func (m *atomicMap) Random() (interface{}, interface{}, bool) {
 	m.pt()
 	ks := sortedKeys(m.in)
@@ -48,6 +67,8 @@ func (m *atomicMap) Random() (interface{}, interface{}, bool) {
 // Range visits the keys present at the start in sorted order, loading each
 // value at visit time (entries deleted meanwhile are skipped), which is within
 // the documented behaviour of sync.Map.Range. The callback may block.
+//
+//go:norace
 func (m *atomicMap) Range(f func(key, value interface{}) bool) {
 	m.rd()
 	for i, k := range sortedKeys(m.in) {
@@ -64,6 +85,7 @@ func (m *atomicMap) Range(f func(key, value interface{}) bool) {
 	}
 }
 
+//go:norace
 func sortedKeys(in goutil.Map) []interface{} {
 	var ks []interface{}
 	in.Range(func(k, _ interface{}) bool { ks = append(ks, k); return true })
@@ -71,6 +93,7 @@ func sortedKeys(in goutil.Map) []interface{} {
 	return ks
 }
 
+//go:norace
 func keyLess(a, b interface{}) bool {
 	switch x := a.(type) {
 	case int32:
@@ -95,40 +118,56 @@ type rwMap struct {
 }
 
 // RwMap mirrors goutil.RwMap.
+//
+//go:norace
 func RwMap(capacity ...int) goutil.Map { return &rwMap{in: goutil.RwMap(capacity...)} }
 
+//go:norace
 func (m *rwMap) String() string { return "RwMap" }
 
+//go:norace
 func (m *rwMap) Load(key interface{}) (interface{}, bool) {
 	m.mu.RLock()
 	defer m.mu.RUnlock()
 	return m.in.Load(key)
 }
+
+//go:norace
 func (m *rwMap) Store(key, value interface{}) {
 	m.mu.Lock()
 	defer m.mu.Unlock()
 	m.in.Store(key, value)
 }
+
+//go:norace
 func (m *rwMap) LoadOrStore(key, value interface{}) (interface{}, bool) {
 	m.mu.Lock()
 	defer m.mu.Unlock()
 	return m.in.LoadOrStore(key, value)
 }
+
+//go:norace
 func (m *rwMap) Delete(key interface{}) {
 	m.mu.Lock()
 	defer m.mu.Unlock()
 	m.in.Delete(key)
 }
+
+//go:norace
 func (m *rwMap) Clear() {
 	m.mu.Lock()
 	defer m.mu.Unlock()
 	m.in.Clear()
 }
+
+//go:norace
 func (m *rwMap) Len() int {
 	m.mu.RLock()
 	defer m.mu.RUnlock()
 	return m.in.Len()
 }
+
+//go:norace
 func (m *rwMap) Random() (interface{}, interface{}, bool) {
 	m.mu.RLock()
 	defer m.mu.RUnlock()
@@ -144,6 +183,8 @@ func (m *rwMap) Random() (interface{}, interface{}, bool) {
 // Range holds the (mirrored) read lock while the callbacks run, like the real
 // RwMap, but iterates over a sorted snapshot taken under that lock so that the
 // real lock is never held across a scheduling point.
+//
+//go:norace
 func (m *rwMap) Range(f func(key, value interface{}) bool) {
 	m.mu.RLock()
 	defer m.mu.RUnlock()
